@@ -8,7 +8,7 @@ S=/var/tmp/seed
 head=$(git -C /repo rev-parse HEAD)
 git -C $S/repo checkout -q --detach $head 2>/dev/null || { git -C $S/repo checkout -q -- . ; git -C $S/repo checkout -q --detach $head; }
 git -C $S/repo checkout -q -- .
-git -C $S/repo apply "$patch"
+[ -s "$patch" ] && git -C $S/repo apply "$patch"; true
 rsync -a --delete --exclude Cargo.toml /verif/harness/ $S/harness/
 sed 's#path = "/repo"#path = "/var/tmp/seed/repo"#' /verif/harness/Cargo.toml > $S/harness/Cargo.toml
 mkdir -p $S/out/evidence $S/out/replays
